@@ -486,7 +486,7 @@ pub fn property() -> Property {
     add!("perp_dot_units-Q", "Q", perp_dot_units::<Q>, 3000, 200_000, 24);
     add!("perp_dot_units-Fp", "Fp", perp_dot_units::<Fp>, 3000, 200_000, 24);
     add!("perp_dot_units-i64", "i64", perp_dot_units::<i64>, 3000, 200_000, 24);
-    s.push(SubCheck { name: "products-f64", scalar: "f64", quick: 6000, thorough: 400_000, len: 48, f: products_f64,
+    s.push(SubCheck { name: "products-f64", scalar: "f64", quick: 6000, thorough: 400_000, len: 72, f: products_f64,
         required: &[("generic", 100), ("wide-magnitudes", 100), ("signed-zeros", 100), ("small-dyadic", 100)],
         rule: "every generated pair; regimes generic / wide magnitudes / signed zeros / small dyadic values, operands aliased now and then", exhaustive: false });
     for (name, scalar, f) in [
